@@ -13,7 +13,8 @@ CONFIRM = True          # wall-clock bounds: a failure must repeat when the case
 BOUND_US = 500000       # 0.5 s for one Route.Dispatch; the unchanged tree stays below ~10 ms
 RULE = ("one case = a real carbon route (sendAllMatch / sendFirstMatch / consistentHashing) with real destinations against loopback endpoints: "
         "healthy, slow reader, absent (connection refused; also coming up later), black hole (accepts, never reads; 20 MB of traffic against 4 KB receive buffers), "
-        "closing between phases (up / down / up again; also with a 2.5 s reconnect period) and closing under traffic, a healthy sibling next to a black-holed destination, and a spooling "
+        "closing between phases (up / down / up again; also with a 2.5 s reconnect period) and closing under traffic, a healthy sibling next to a black-holed destination, a black-holed destination re-pointed "
+        "to a healthy endpoint while its writer is stuck (modDest addr=), and a spooling "
         "destination whose 16 MB backlog from an outage is replayed into an endpoint that came back but never reads, with live traffic on top; "
         "connbuf 1..1000, iobuf 100..65536, 2k-20k lines per phase in bursts or paced. Measured: the slowest Route.Dispatch call, per steady phase "
         "handed = received + slow_conn (up) or = conn_down_no_spool (down), and the relay loop's own event marks (build tag verif), which are "
@@ -37,6 +38,8 @@ def gen(rng, tier):
                               "pace": rng.choice([0, 0, 50]) if scen != "close_under_traffic" else 50})
         # the endpoint closes mid-stream while the reconnect period is long (the relay must notice the dead connection at once,
         # not at the next reconnect tick: every line handed off in between is counted conn_down_no_spool)
+        cases.append({"scenario": "repoint_blackholed", "route": rng.choice(["sendAllMatch", "sendFirstMatch"]), "connbuf": rng.choice([10, 1000]),
+                      "iobuf": rng.choice([4096, 65536]), "n": 20000, "size": 1000, "pace": 0})
         cases.append({"scenario": "close_then_traffic", "route": "sendAllMatch", "connbuf": rng.choice([100, 1000, 30000]), "iobuf": 65536,
                       "n": 1000, "size": 60, "pace": rng.choice([0, 50]), "reconn_ms": 2500})
     return cases
